@@ -327,6 +327,8 @@ func (b *Behaviour) Summary() string {
 			fmt.Fprintf(&sb, "open(fast=%v,iv=%d)", s.Args.Fast, s.IV)
 		case "reopenat":
 			fmt.Fprintf(&sb, "reopenat %d(fast=%v)", s.Args.T, s.Args.Fast)
+		case "expopen", "expclose":
+			fmt.Fprintf(&sb, "%s %d", s.Op, s.Args.T)
 		case "reopen":
 			fmt.Fprintf(&sb, "reopen(fast=%v)", s.Args.Fast)
 		case "load":
